@@ -48,6 +48,8 @@ VALUES: Dict[str, Tuple[Any, Any, Any]] = {
     "listint": (["1", 2], "no", [1, 2]), "model": ({"a": "3"}, {"a": "x"}, {"a": 3, "b": "dflt"}),
     "dc": ({"x": "4", "y": ["5"]}, {"x": "q"}, {"x": 4, "y": [5]}), "optint": ("7", "seven", 7),
 }
+# falsy values that still must be converted to the annotated type
+FALSY: Dict[str, Any] = {"float": 0, "bool": 0, "str": "", "listint": [], "optint": 0, "int": 0.0, "model": {}, "dc": {}}
 JSON_POOL = [0, -1, 2 ** 40, 1.25, "", "héllo ☃", True, None, [1, [2, {"k": None}]], {"a": {"b": [1.5, "x"]}}, "5", [], {}]
 
 
@@ -72,13 +74,28 @@ def value_for(vc: str, ty: str, an: str, rng: random.Random) -> Any:
     if vc == "none":
         return None
     if vc == "model":
-        return PModel(a=rng.randint(1, 9), b=rng.choice(["x", "dflt"]))
+        return PModel(a=rng.randint(1, 9), b="x") if rng.random() < 0.5 else PModel(a=rng.randint(1, 9))   # b left unset
     if vc == "dc":
         return PData(x=rng.randint(1, 9), y=[1, 2])
     if an != "T":
         return rng.choice(JSON_POOL)
     conv, nconv, native = VALUES[ty]
+    if vc == "convfalsy":
+        return FALSY.get(ty, conv)
     return {"conv": conv, "nconv": nconv, "native": native}[vc]
+
+
+def indep_prepare(v: Any) -> Any:
+    """What a model / dataclass argument must look like on the wire (its dict form), computed without taskiq."""
+    if isinstance(v, pydantic.BaseModel):
+        return json_like(v.model_dump(mode="json"))
+    if dataclasses.is_dataclass(v) and not isinstance(v, type):
+        return dataclasses.asdict(v)
+    return v
+
+
+def json_like(x: Any) -> Any:
+    return x
 
 
 def same(a: Any, b: Any) -> bool:
@@ -145,7 +162,7 @@ def run(case: Dict[str, Any]) -> Dict[str, Any]:
         from taskiq.kicker import AsyncKicker
         for c in case["call"]:
             p = sig[c["p"] - 1]
-            prepared = AsyncKicker._prepare_arg(sent[c["p"]])
+            prepared = indep_prepare(sent[c["p"]])
             # what a JSON wire does to the prepared value (tuples -> lists etc. do not occur in the pools)
             name = f"p{c['p']}"
             if name not in got:
